@@ -2,7 +2,8 @@
    the gRPC broker's expiry handler only deletes, see Props/C07.v).
    Statements only; proofs in Proofs/MuxBrokerP.v. *)
 From Coq Require Import List NArith Bool PeanoNat.
-From GP Require Import Model.MuxBroker Model.Params Proofs.MuxBrokerP.
+From Coq Require Import String.
+From GP Require Import Generated Model.MuxBroker Model.Conc Model.Params Proofs.MuxBrokerP Proofs.ConcP.
 Import ListNotations.
 
 (* facts of the current source (regenerated on every run) *)
@@ -38,6 +39,18 @@ Theorem C09_dial_answered : forall s t n i, tlookup (thr s) t = Some (DialWait n
   (exists a, nth_error (acks s) i = Some (Some a)) \/ (nth_error (acks s) i = Some None /\ nth_error (closed s) i = Some true) ->
   step gen_mux_params s (Step t) <> None.
 Proof. exact (dial_answered gen_mux_params). Qed.
+
+(* no cycle of goroutines waiting for each other's mutexes, anywhere in the package: the pairs (held, wanted) extracted from
+   the source on this run (direct nesting and synchronous calls, transitively) admit the numbering extracted with them,
+   which Coq re-checks here; a mutex locked again while held would be an edge from a lock to itself *)
+Lemma facts_lock_order : ranks_ok lock_order_edges lock_ranks = true. Proof. reflexivity. Qed.
+
+Theorem C09_no_lock_cycle : forall st c, follows lock_order_edges st -> ~ deadlock st c.
+Proof. exact (no_lock_cycle lock_order_edges lock_ranks facts_lock_order). Qed.
+
+(* the seeded double lock (Accept's timeout branch calling a helper that locks again) as an edge set *)
+Example C09_refuted_double_lock : ranks_ok [("MuxBroker:", "MuxBroker:")]%string [("MuxBroker:", 0)]%string = false.
+Proof. reflexivity. Qed.
 
 (* the two defects of the pinned tree, on the model with the corresponding facts off *)
 Definition old_params := {| drain_has_default := false; run_closes_dropped := false; sender_waits_ack := true; taker_timeout_deletes := true; expiry_drains := true |}.
